@@ -1,6 +1,7 @@
 """C++ front end: clang JSON AST loader, declaration index, constant folding, lowering to the IR."""
 import json
 import os
+import re
 import subprocess
 import tempfile
 
@@ -344,6 +345,13 @@ class TU:
                         x['_primary'] = True
                 self._index(c, prefix, cls, 'primary')
             elif k == 'FunctionTemplateDecl':
+                # the first function inside is the pattern (dependent expressions), the others are its instantiations
+                pattern_seen = False
+                for x in c.get('inner', []):
+                    if x.get('kind') in ('FunctionDecl', 'CXXMethodDecl'):
+                        if pattern_seen and inst != 'primary':
+                            x['_ftinst'] = self._targs(x) or 'instantiation'
+                        pattern_seen = True
                 self._index(c, prefix, cls, 'primary')
             elif k in ('FunctionDecl', 'CXXMethodDecl', 'CXXConstructorDecl', 'CXXDestructorDecl', 'CXXConversionDecl'):
                 owner = cls
@@ -354,6 +362,8 @@ class TU:
                     owner = self.qual[pid]
                     pfx = owner + '::'
                     finst = self.by_id.get(pid, {}).get('_inst', inst)
+                if c.get('_ftinst'):
+                    finst = c['_ftinst']
                 q = pfx + (name or '?')
                 self.qual[c['id']] = q
                 self.decls.setdefault(q, []).append(c)
@@ -379,10 +389,14 @@ class TU:
                 c['_cls'] = cls
             elif k == 'EnumDecl':
                 q = prefix + name if name else prefix.rstrip(':')
+                epfx = (prefix + name + '::') if (name and c.get('scopedEnumTag')) else prefix
+                prev = None
                 for x in c.get('inner', []):
                     if x.get('kind') == 'EnumConstantDecl':
-                        self.qual[x['id']] = prefix + x['name']
-                        self.decls.setdefault(prefix + x['name'], []).append(x)
+                        self.qual[x['id']] = epfx + x['name']
+                        self.decls.setdefault(epfx + x['name'], []).append(x)
+                        x['_prev'] = prev            # an enumerator without an initialiser is its predecessor + 1 (the first: 0)
+                        prev = x
             elif k in ('TypedefDecl', 'TypeAliasDecl'):
                 self.qual[c['id']] = prefix + (name or '')
                 self.decls.setdefault(prefix + (name or ''), []).append(c)
@@ -488,6 +502,22 @@ class TU:
             raise AnalysisError('anchor vanished: constant %s has no foldable initialiser' % qual)
         return v
 
+    def _enumerator(self, d):
+        if not d:
+            return None
+        for x in d.get('inner', []):
+            v = self.fold_node(x)
+            if v is not None:
+                return v
+        if any(x.get('kind') not in ('FullComment',) and 'Attr' not in x.get('kind', '') for x in d.get('inner', [])):
+            return None                     # an initialiser that does not fold
+        if '_prev' not in d:
+            return None
+        if d['_prev'] is None:
+            return 0
+        pv = self._enumerator(d['_prev'])
+        return None if pv is None else pv + 1
+
     # -- constant folding on raw nodes -------------------------------------------
     def fold_node(self, n, env=None):
         k = n.get('kind')
@@ -521,13 +551,7 @@ class TU:
         if k == 'DeclRefExpr':
             rd = n.get('referencedDecl', {})
             if rd.get('kind') == 'EnumConstantDecl':
-                d = self.by_id.get(rd['id'])
-                if d:
-                    for x in d.get('inner', []):
-                        v = self.fold_node(x, env)
-                        if v is not None:
-                            return v
-                return None
+                return self._enumerator(self.by_id.get(rd['id']))
             if rd.get('kind') == 'VarDecl':
                 if env and rd.get('id') in env:
                     return env[rd['id']]
@@ -976,6 +1000,10 @@ class Lowerer:
             op = n['opcode']
             if op == '=':
                 return E('assignexpr', self.expr(inner[0]), self.expr(inner[1]), loc=loc, ty=ty, raw=n)
+            if op == '/':
+                arr = self._countof(inner[0], inner[1])
+                if arr is not None:
+                    return arr
             return E('bin', op, self.expr(inner[0]), self.expr(inner[1]), loc=loc, ty=ty, raw=n)
         if k == 'CompoundAssignOperator':
             return E('assignexpr', self.expr(inner[0]),
@@ -1028,6 +1056,52 @@ class Lowerer:
         if k in ('CXXNewExpr', 'CXXDeleteExpr', 'LambdaExpr', 'CXXThrowExpr'):
             raise AnalysisError('%s: %s is not a recognised idiom of this repository' % (loc, k))
         return E('opaque', k or '?', loc=loc, ty=ty, raw=n)
+
+    def _countof(self, l, r):
+        """`sizeof(a) / sizeof(a[0])` (also `sizeof(*a)`, `sizeof(T)` for an array of T): the number of elements of the array a -
+        a constant where the array type carries its bound, else (a dependent element type in a class template) an expression
+        the evaluator answers from the initialiser list"""
+        def strip(x):
+            while x.get('kind') in TRANSPARENT or x.get('kind') in ('ImplicitCastExpr', 'ParenExpr'):
+                if not x.get('inner'):
+                    break
+                x = x['inner'][-1]
+            return x
+
+        def ref_id(x):
+            x = strip(x)
+            if x.get('kind') == 'DeclRefExpr':
+                return (x.get('referencedDecl') or {}).get('id')
+            if x.get('kind') == 'MemberExpr':
+                return x.get('referencedMemberDecl')
+            return None
+        l, r = strip(l), strip(r)
+        if not (l.get('kind') == r.get('kind') == 'UnaryExprOrTypeTraitExpr' and l.get('name') == r.get('name') == 'sizeof' and l.get('inner')):
+            return None
+        arr = strip(l['inner'][0])
+        aid = ref_id(arr)
+        aty = nty(arr) or ''
+        if aid is None or not aty.rstrip().endswith(']'):
+            return None
+        if r.get('inner'):
+            el = strip(r['inner'][0])
+            if el.get('kind') == 'ArraySubscriptExpr' and el.get('inner'):
+                if ref_id(el['inner'][0]) != aid:
+                    return None
+            elif el.get('kind') == 'UnaryOperator' and el.get('opcode') == '*' and el.get('inner'):
+                if ref_id(el['inner'][0]) != aid:
+                    return None
+            else:
+                return None
+        else:
+            et = (r.get('argType') or {}).get('qualType', '')
+            if not et or aty.replace('const ', '').split('[')[0].strip() != et.replace('const ', '').strip():
+                return None
+        m = re.search(r'\[(\d+)\]\s*$', aty)
+        loc = self.L(l)
+        if m:
+            return E('const', int(m.group(1)), loc=loc, ty='unsigned long')
+        return E('opaque', 'countof', self.expr(arr), loc=loc, ty='unsigned long')
 
     @staticmethod
     def _is_copy_ctor(ty, ctor_type):
